@@ -127,6 +127,27 @@ pub fn record(args: &Args, mut out: Out) -> usize {
             }
         }
     }
+    // consecutive calls that share a part of their arguments: the same players on boards that keep a random non-empty subset
+    // of the previous board's positions (only turn and river, only the flop, one card, four cards) - whatever a memo
+    // keyed on part of the board would keep from the call before.  Every call is an ordinary event judged on its own.
+    for g in 0..(n / 8) {
+        let p = *rng.pick(&probs);
+        let np = 2 + rng.usize(4);
+        let mut used = vec![];
+        let mut board = draw(&mut rng, &mut used, 5, None);
+        let pl: Vec<(usize, usize)> = (0..np).map(|_| { let h = draw(&mut rng, &mut used, 2, None); (h[0], h[1]) }).collect();
+        event(&board, &pl, p, &mut out);
+        for m in 0..3usize {
+            let keep: usize = match (g + m) % 4 { 0 => 0b11000, 1 => 0b00111, _ => 1 + rng.usize(30) };
+            for k in 0..5 {
+                if keep >> k & 1 == 0 {
+                    let c = draw(&mut rng, &mut used, 1, None);
+                    board[k] = c[0];
+                }
+            }
+            event(&board, &pl, p, &mut out);
+        }
+    }
     // the result of a call is a function of its arguments: a fixed set of calls (several lead changes each, some
     // refused) repeated many times on this one thread; a repetition whose result differs from the first one is logged
     // as an ordinary event, which TLC then judges (the first result of every call is logged and judged as well)
